@@ -134,11 +134,36 @@ func (g *gWorker) reset(cfg drv.Cfg) error {
 
 // ask sends one MAIL or RCPT line in a fresh transaction and returns reply
 // code and the callback it caused (nil if none).
-func (g *gWorker) ask(kind, line string) (int, *rec.Call, error) {
+//
+// pre: the line is preceded, in the same transaction state, by a command of the
+// same kind that carries every parameter and is refused by the backend: what
+// was parsed for a refused command is no part of the next one.
+func (g *gWorker) ask(kind, line string, pre, all bool) (int, *rec.Call, error) {
 	be := g.srv.BE
 	if kind == "rcpt" {
 		if rs, _, err := g.cn.Replies([]byte("MAIL FROM:<s@x.test>\r\n")); err != nil || len(rs) != 1 || rs[0].Code != 250 {
 			return 0, nil, fmt.Errorf("MAIL before RCPT: %v %v", rs, err)
+		}
+	}
+	if pre {
+		refusal := &smtp.SMTPError{Code: 550, EnhancedCode: smtp.EnhancedCode{5, 7, 1}, Message: "not this one"}
+		preLine := "MAIL FROM:<pre@x.test> SIZE=77 BODY=8BITMIME"
+		if all {
+			preLine += " SMTPUTF8 REQUIRETLS RET=HDRS ENVID=pre AUTH=pre@x.test"
+		}
+		be.Lock()
+		if kind == "rcpt" {
+			be.RcptErrs = []error{refusal}
+			preLine = "RCPT TO:<pre@x.test>"
+			if all {
+				preLine += " NOTIFY=SUCCESS,DELAY ORCPT=rfc822;pre@x.test RRVS=2014-04-03T23:01:00Z"
+			}
+		} else {
+			be.MailErrs = []error{refusal}
+		}
+		be.Unlock()
+		if rs, _, err := g.cn.Replies([]byte(preLine + "\r\n")); err != nil || len(rs) != 1 || rs[0].Code != 550 {
+			return 0, nil, fmt.Errorf("the refused command before the case (%q): %v %v", preLine, codes(rs), err)
 		}
 	}
 	mark := be.NumCalls()
@@ -273,7 +298,7 @@ func init() {
 							}
 						}
 					}
-					code, cb, err := g.ask(c.Kind, line)
+					code, cb, err := g.ask(c.Kind, line, i%3 == 1, all)
 					if err != nil {
 						mu.Lock()
 						if firstErr == nil {
